@@ -37,7 +37,7 @@ type Op struct {
 // Stats are per-run counters used for evidence labels.
 type Stats struct {
 	Delivered, Dropped, Dups, Own, Timeouts, Crashes, Restarts int
-	ByzProposals, ByzVotes, Equivocations, Splits, StalePolkas int
+	ByzProposals, ByzVotes, Equivocations, Splits, StalePolkas, Stuffed int
 	LateProposals, ByzClaims, Starved, NilRounds               int
 	MaxRound                                                   int64
 	Locked, Unlocked                                           bool
@@ -523,6 +523,13 @@ func (d *Driver) byzVote(op Op) bool {
 		d.Stats.Equivocations++
 	}
 	d.byzSigned[key] = bid.Key()
+	if op.C%11 == 3 && rs.Validators.Size() > 1 {
+		// the signed vote presented for another validator's slot (index is not signed)
+		w := *v
+		w.ValidatorIndex = mod(v.ValidatorIndex+1+mod(op.C/11, rs.Validators.Size()-1), rs.Validators.Size())
+		v = &w
+		d.Stats.Stuffed++
+	}
 	dst := d.subset(op.C|1<<uint(mod(op.C/7, len(hs))), hs)
 	copies := 1
 	if op.B%5 == 4 {
@@ -696,6 +703,21 @@ func (d *Driver) Split(op Op) bool {
 				v := SignVote(bz.ID, rs.Validators, rs.Height, rs.Round, typ, bid)
 				for _, n := range g[i] {
 					d.Net.Send(bz.ID, n.ID, &pbft.VoteMessage{Vote: v})
+				}
+				if op.B%3 == 1 {
+					// slot stuffing: the same signed vote once more for every other validator's slot
+					// (the index is not covered by the signature; the address stays the signer's own)
+					for idx := 0; idx < rs.Validators.Size(); idx++ {
+						if idx == v.ValidatorIndex {
+							continue
+						}
+						w := *v
+						w.ValidatorIndex = idx
+						for _, n := range g[i] {
+							d.Net.Send(bz.ID, n.ID, &pbft.VoteMessage{Vote: &w})
+						}
+					}
+					d.Stats.Stuffed++
 				}
 			}
 		}
